@@ -18,7 +18,7 @@ Proof.
   unfold names_it in Hn.
   destruct (apropos (if fst ic then snd ic ++ [slash] else snd ic)) as [m|] eqn:Ea; [|discriminate].
   apply existsb_exists in Hn. destruct Hn as [e [He Hr]].
-  destruct (rel2abs e (snd ic)) as [t|] eqn:Er; [|discriminate].
+  destruct (resolve_entry (fst ic) (port_name m) e (snd ic)) as [t|] eqn:Er; [|discriminate].
   apply streqb_true in Hr. subst t.
   exists ic, m, e. repeat split; assumption.
 Qed.
